@@ -1650,9 +1650,9 @@ fn main() {
     run.set(
         "bounds",
         json!(if run.thorough {
-            "thorough: R<=5 - every configuration x document x password pair x {permission menu of 10 x identifier length {16,0,32} x (B) all spellings, in memory and through writer+loader; (B) all 3 salt/IV patterns with permissions=all and identifier length 16, one pattern in rotation elsewhere}, plus the remaining 246 conforming permission words x identifier length 16 on the page document; R6 - every configuration x document x password pair with permissions=all (in memory and through writer+loader) plus the permission menu on the page document"
+            "thorough: R<=5 - every configuration x document x password pair x {permission menu of 10 x identifier length {16,0,32} x (B) all spellings, in memory and through writer+loader; (B) all 3 salt/IV patterns with permissions=all and identifier length 16, one pattern in rotation elsewhere}, plus the remaining 246 conforming permission words x identifier length 16 on the page document; R6 - every configuration x document x password pair with permissions=all (in memory and through writer+loader) plus the permission menu on the page document; deep-nesting family: every configuration x three password pairs; file-identifier family: every password pair; direction K: all 256 conforming permission words with the pair 'distinct' on the page document (R6: the menu of 10)"
         } else {
-            "quick: R<=5 - every configuration x document x password pair with permissions=all and identifier length 16 (in memory and through writer+loader), identifier lengths 0/32 and the alternative spellings (B) with permissions=all, the permission menu of 10 on the page document, (B) one salt/IV pattern per case in rotation; R6 - every sixth (document, password pair) per configuration plus the permission menu on (page, distinct passwords): R5 differs from R6 only in the hash function and carries the full menu"
+            "quick: R<=5 - every configuration x document x password pair with permissions=all and identifier length 16 (in memory and through writer+loader), identifier lengths 0/32 and the alternative spellings (B) with permissions=all, the permission menu of 10 on the page document, (B) one salt/IV pattern per case in rotation; R6 - every sixth (document, password pair) per configuration plus the permission menu on (page, distinct passwords): R5 differs from R6 only in the hash function and carries the full menu; deep-nesting family: representative configurations x password pair 'distinct'; file-identifier family: one configuration per key-derivation variant x every password pair (R6: two pairs); direction K: every configuration x every password pair with permissions=all (R6: two pairs), the permission menu of 10 with the pair 'distinct' on the page document (R6: all and none), the streams document where EncryptMetadata is false, alternative spellings (no /Length, StmF/StrF omitted) with the pair 'distinct'"
         }),
     );
     run.exhaustive(true);
